@@ -32,6 +32,12 @@ def prove_obligations(res, theorems):
     for t in theorems:
         res.oblige("T:" + t, "T", ok, "" if ok else (det.get("failed_at") or det.get("coq_error", "")[-300:] or str(det.get("unexpected_axioms") or det.get("forbidden")))[:400])
     res.proof_details = det
+    if ok and res.tier == "thorough":
+        # independent re-check of the compiled proofs and everything they depend on
+        ok2, out = lib.coqchk(res.prop)
+        clean = ok2 and "Axioms: <none>" in out
+        res.oblige("T:coqchk -o QCo.Props.%s (independent checker; Axioms: <none>)" % res.prop, "T", clean, "" if clean else out[-600:])
+        res.notes.append("coqchk: " + " ".join(out.split())[-300:])
     return ok
 
 
